@@ -150,11 +150,16 @@ pub fn c10(out: &mut Out, ex: &mut Exec, seed: u64, thorough: bool) {
             v.push(format!("sim rawmem 0181 {:04x}/ffff {:04x}/ffff {:04x}/ffff", h_cnt, h_rti, h_trp));
             v.push(format!("sim rawmem 0030 {:04x}/ffff", h_rti));
             v.push(format!("sim rawmem 0180 {:04x}/ffff", h_kb));
+            v.push(format!("sim rawmem 0105 {:04x}/ffff", h_cnt));
+            v.push(format!("sim rawmem 0141 {:04x}/ffff", h_rti));
+            v.push(format!("sim rawmem 017f {:04x}/ffff", h_cnt));
             if with_int {
                 let ndev = 1 + rng.below(2);
                 for _ in 0..ndev {
                     let mut toks = vec![];
-                    for _ in 0..nsteps_guess { toks.push(if rng.chance(1, 9) { format!("v{:x}p{}", 0x81 + rng.below(3), 1 + rng.below(7)) } else { "-".into() }); }
+                    // every third device raises vectors below x80 (table entries x0105, x0141, x017F): the table index is x0100 + vector
+                    let low = rng.chance(1, 3);
+                    for _ in 0..nsteps_guess { toks.push(if rng.chance(1, 9) { let vct = if low { *rng.pick(&[0x05u64, 0x41, 0x7f]) } else { 0x81 + rng.below(3) }; format!("v{:x}p{}", vct, 1 + rng.below(7)) } else { "-".into() }); }
                     v.push(format!("sim intr {}", toks.join(",")));
                 }
                 if rng.chance(1, 4) { let lo = 40 + rng.below(60); let hi = lo + rng.below(30); let seed = rng.below(1000);
@@ -185,7 +190,7 @@ pub fn c10(out: &mut Out, ex: &mut Exec, seed: u64, thorough: bool) {
         if seen.insert(crate::simx::fnv(lb.iter().flat_map(|l| l.bytes().map(|b| b as u64)))) && lb.iter().any(|l| l.contains("sim intr") || l.contains("sim timer")) { out.nontrivial += 1; }
         if out.samples.len() < 2 { let mut s = Json::obj(); s.set("setup", Json::Arr(lb.iter().take(14).map(|x| Json::s(x.chars().take(160).collect::<String>())).collect())); s.set("final", Json::s(rb[rb.len() - 2].clone())); out.sample(s); }
     }
-    out.rule = "generated user programs (loops, calls, traps with I/O; every fifth case with ignore_privilege) run with 1-2 scripted interrupt devices raising vectors x81-x83 at random instruction boundaries with random priorities 1-7 (nesting, competition), optional seeded timer, optional keyboard interrupts (KBSR[14]) with a handler that reads KBDR; handlers: bare RTI, save/restore R0-R1 + supervisor counter, keyboard reader. Every single step of the first 10-50 boundaries and the final state compared with the model; oracle on the implementation: final PC, PSR (CC), R0-R7, display output and user memory equal those of the uninterrupted run. non-trivial = case has an interrupt source".into();
+    out.rule = "generated user programs (loops, calls, traps with I/O; every fifth case with ignore_privilege) run with 1-2 scripted interrupt devices raising vectors x81-x83 (every third device: x05, x41, x7F) at random instruction boundaries with random priorities 1-7 (nesting, competition), optional seeded timer, optional keyboard interrupts (KBSR[14]) with a handler that reads KBDR; handlers: bare RTI, save/restore R0-R1 + supervisor counter, keyboard reader. Every single step of the first 10-50 boundaries and the final state compared with the model; oracle on the implementation: final PC, PSR (CC), R0-R7, display output and user memory equal those of the uninterrupted run. non-trivial = case has an interrupt source".into();
 }
 
 /// C11 / C12: OS trap contracts, real vs virtual.
@@ -228,8 +233,16 @@ pub fn c11(out: &mut Out, ex: &mut Exec, seed: u64, thorough: bool, paired: bool
             let late = which == 0x20 && id % 3 == 1;
             let mut v = base_setup(&format!("{id}{}", if real { "r" } else { "v" }), real, false, &prog, if late { &[] } else { &kb });
             // every fifth case runs with ignore_privilege: the routines' entry and RTI must still switch stacks by the PSR alone
-            if id % 5 == 4 { v[1] = format!("sim new 0 {} 0 1 0000", real as u8); }
-            for (r, d) in regs.iter().enumerate() { v.push(format!("sim rawreg {} {:04x} ffff", r, d)); }
+            // every fourth case runs in strict mode with R1-R5 and R7 (partly) uninitialised: the routines save and restore them
+            // through the stack (stack-relative loads and stores are exempt from the strict checks) and must still return
+            let strict = id % 4 == 2;
+            if id % 5 == 4 || strict { v[1] = format!("sim new {} {} 0 {} 0000", strict as u8, real as u8, (id % 5 == 4) as u8); }
+            if strict { out.hist.hit("strict_mode_uninitialised_registers"); }
+            for (r, d) in regs.iter().enumerate() {
+                // (every other strict case: the user stack pointer itself is uninitialised — entry checks the supervisor stack pointer, after the switch)
+                let mask = if strict && r == 6 { if id % 8 == 2 { 0x0000 } else { 0xffff } }
+                    else if strict && r != 0 { *[0x0000u16, 0xffff, 0x0ff0].get((id as usize + r) % 3).unwrap() } else { 0xffff };
+                v.push(format!("sim rawreg {} {:04x} {:04x}", r, d, mask)); }
             if late { v.push("sim hostwrite fffc 8702 ffff 1 0 0 0".into()); v.push("sim hostwrite fe00 4000 ffff 1 0 0 0".into()); }
             // step to the trap, remember the state, run the trap to its return, then to the end
             let pre_steps = if which == 0x20 || which == 0x23 || which == 0x25 { 1 } else { 2 };
